@@ -66,7 +66,7 @@ def Red.apply (r : Red) (comb : List NT → NT) (batch : List NT) : List NT :=
   if r.axes.isEmpty then [comb batch]
   else r.natAxes.foldl (fun b d => batchedReduce comb d b) batch
 
-def Table := List Red
+abbrev Table := List Red
 
 def Table.wf (t : Table) : Bool := t.all Red.perSample
 
@@ -83,7 +83,9 @@ def groupStat (xs : List Int) : List Int :=
 statistics of that sample only -/
 def sampleStats (groups : Nat) (sample : List Int) : List Int :=
   if groups = 0 ∨ sample.length % groups ≠ 0 then []
-  else (chunksOf (sample.length / groups) sample).flatMap groupStat
+  else
+    let size := sample.length / groups
+    (List.range groups).flatMap fun g => groupStat ((sample.drop (g * size)).take size)
 
 /-- `NormUnetModel2d.norm` / `NormUnetModel3d.norm` / `NormConv2dGRU.norm` on a batch: statistics sample by sample -/
 def normBatch (groups : Nat) (batch : List (List Int)) : List (List Int) := batch.map (sampleStats groups)
@@ -134,7 +136,7 @@ def runCalls {σ ι ο : Type} (m : Module σ ι ο) : σ → List ι → σ × 
     (s'', y :: ys)
 
 /-- table of `(class.method, number of assignments to self.* inside it)` -/
-def Writes := List (String × Nat)
+abbrev Writes := List (String × Nat)
 def Writes.none (t : Writes) : Bool := t.all fun e => e.2 == 0
 
 end DirectVerif.BatchSep
